@@ -136,6 +136,22 @@ def r09_1(ctx):
                     r.violate(fn, site, body.where(arms.get(v, sw)), "transition for %s is %s, JSEP table says %s" % (v, got, want))
         if not found_any:
             raise core.CheckerError("R09.1: state-machine switch on desc.sdp_type not found in %s" % fn)
+        # no success without the state machine: every Ok return lies behind the dispatch on the description type (an
+        # early `return Ok(())` for, say, a repeated identical answer skips precondition and transition alike)
+        machine = [sw for sw, arms in _arms(body) if any(st for _, st in _sig_sends(body)) ]
+        sm_blocks = []
+        for sw, arms in _arms(body):
+            reach = set()
+            for t in arms.values():
+                reach |= body.reachable([t])
+            if any(bi in reach for bi, _x, _o, _b in tests) or any(sb in reach for sb, _ in sends):
+                sm_blocks.append(sw)
+        for ob in core.ok_return_blocks(body):
+            if sm_blocks and core.must_pass(body, ob, sm_blocks):
+                r.ok({"function": fn.split("::")[-2] if fn.endswith("}") else fn.split("::")[-1], "Ok return": body.where(ob), "behind": "the state-machine dispatch"})
+            else:
+                r.violate(fn, "ok:bypass", body.where(ob), "this call can return Ok without having gone through the signaling state machine: "
+                          "the precondition is not checked and the state is not advanced, yet the caller is told the description was applied")
     # create_offer / create_answer preconditions
     for fn, need in ((CO, "Stable"), (CA, "HaveRemoteOffer")):
         body = ctx.body(fn)
